@@ -53,7 +53,7 @@ for grp in sorted(os.listdir(ST)):
         json.dump(meta_out, open(os.path.join(o, "meta.json"), "w"), indent=1)
         rows.append((sid, meta.get("property"), row, (meta.get("summary") or "")[:90]))
 with open(os.path.join(OUT, "MATRIX.md"), "w") as f:
-    f.write("# Seeded changes x quick checks\n\nV = VIOLATION with a failing input as replay; d = VIOLATION ... no-failing-input-found (correspondence no longer checks, no failing input found); "
+    f.write("# Seeded changes x quick checks\n\nChecks as of /verif commit %s (tools/matrix.sh through `vp run` snapshots).\n\n" % os.environ.get("MATRIX_COMMIT", "(see git log)") + "V = VIOLATION with a failing input as replay; d = VIOLATION ... no-failing-input-found (correspondence no longer checks, no failing input found); "
             ". = exit 0; blank = not run. The column 'breaks' is the property the change was written against.\n\n")
     f.write("| seed | breaks | " + " | ".join(p[1:] for p in PROPS) + " | change |\n|---|---|" + "---|" * len(PROPS) + "---|\n")
     for sid, prop, row, summ in rows:
@@ -81,4 +81,15 @@ with open(os.path.join(OUT, "MATRIX.md"), "a") as f:
 R = os.path.join(OUT, "history"); os.makedirs(R, exist_ok=True)
 for fn in sorted(os.listdir(os.path.join(ST, "R"))):
     shutil.copy(os.path.join(ST, "R", fn), R)
+open(os.path.join(R, "README.md"), "w").write("""# Patches against the repository's own history
+
+Applied to a scratch copy of /repo (never to /repo itself) with tools/seedtest.sh.
+
+* `revert_F1.diff` .. `revert_F7.diff` - the reverse of each `fix:` commit (F2's no longer applies on top of F1).
+  Reported again by: F1 -> C04 C06; F3, F4 -> C05; F5 -> C06 C19; F6 -> C06 C19; F7 -> C14.
+* `code_renumber.diff` - one event code renumbered to a free value: C11 (failing input), C12 (divergence only: the
+  codes stay distinct), C03 silent.
+* `code_equal.diff` - two event codes made equal: C11 and C12 with failing inputs (and the NoDup tie no longer proves).
+* `guard_lt.diff` - a decoder's size guard relaxed: C05 (failing input; the size-guard tie no longer proves).
+""")
 print("seeds:", len(rows), "harmless:", len(hrows))
